@@ -3,7 +3,7 @@
 use super::ConnectionState;
 use crate::conn_id::ConnectionId;
 use crate::verif::env::*;
-use crate::verif_collections::{HashMap, HashSet, CAP};
+use crate::verif_collections::{at, at_mut, HashMap, HashSet, CAP};
 use aldrin_core::{BusListenerCookie, ChannelCookie, ObjectCookie, ProtocolVersion, ServiceCookie};
 
 // ---- accessors ----
@@ -97,8 +97,8 @@ mod harnesses {
                 let set = any_event_set();
                 kani::assume(!set.is_empty());
                 let slot: usize = kani::any();
-                kani::assume(slot < CAP && c.events.slots[slot].is_none());
-                c.events.slots[slot] = Some((svc_cookie(i), set));
+                kani::assume(slot < CAP && at(&c.events.slots, slot).is_none());
+                *at_mut(&mut c.events.slots, slot) = Some((svc_cookie(i), set));
             }
             if kani::any() {
                 c.all_events.insert(svc_cookie(i));
@@ -210,4 +210,7 @@ mod harnesses {
         kani::cover!(ok && have1 && have2);
         std::mem::forget(c);
     }
+
+    #[cfg(verif_replay)]
+    include!("/verif/.cache/replay/broker__conn_state__verif__harnesses.rs");
 }
